@@ -146,10 +146,11 @@ def run(tier: str) -> int:
     rep.add_tlc(results)
     if sum(max(x.distinct - 1, 0) for x in results) != len(events):
         raise core.MachineryError("J_C13 did not consume every event")
-    rep.traces = sum(len(e["orders"]) for e in events)
+    ddl_traces, ddl_distinct, ddl_engine = ddl_family(rep, tier, qc)
+    rep.traces = sum(len(e["orders"]) for e in events) + ddl_traces
     rep.evaluations = rep.traces
-    rep.distinct = {(m[0], m[2]) for m in meta}
-    rep.extra["sqlite_prepared"] = engine_checked
+    rep.distinct = {(m[0], m[2]) for m in meta} | ddl_distinct
+    rep.extra["sqlite_prepared"] = engine_checked + ddl_engine
     bad = []
     for res in results:
         bad += res.json_tagged("V")
@@ -197,9 +198,90 @@ def run(tier: str) -> int:
     rep.rule = (f"TLC enumerates every subset of <= {maxcalls} calls of each family's pool (15 SELECT, 10 INSERT/upsert, 8 UPDATE, 7 DELETE calls) and all its "
                 "permutations; each order is executed under the 6 dialect classes; TLC folds the calls through PT_Builder and compares the depth-0 clause "
                 "sequence of the real tokens with ClauseSeq, and requires one text per clause-order class of the multiset; SQLite's parser prepares the "
-                "SQLite-dialect statements")
+                "SQLite-dialect statements; CREATE TABLE: every subset of <= K of 10 option / column / constraint calls in every order (PT_Ddl!DSeq, J_Ddl)")
     rep.exhaustive = True
     return rep.finish()
+
+
+DDL_WORDS = {"CREATE", "TEMPORARY", "UNLOGGED", "TABLE", "IF", "NOT", "EXISTS", "PERIOD", "FOR", "UNIQUE", "PRIMARY", "KEY", "WITH", "SYSTEM", "VERSIONING",
+             "AS", "SELECT", "FROM"}
+
+
+def ddl_family(rep, tier, qc):
+    """CREATE TABLE: every subset of <= K option / column / constraint calls in every order (spec PT_Ddl, generator MC_Ddl, judge J_Ddl)"""
+    from pypika_tortoise import Column
+
+    r = tlc.run("MC_Ddl", f"CONSTANT MaxCalls = {3 if tier == 'quick' else 4}\nINIT Init\nNEXT Next\nINVARIANT Emit\nINVARIANT Commutes\n", workers=8, heap="4g")
+    rep.add_tlc(r)
+    if r.violation or not r.ok:
+        raise core.MachineryError(f"MC_Ddl: {r.violation}\n{r.raw_tail[-1200:]}")
+    groups = {}
+    for p in r.json_tagged("P"):
+        groups.setdefault(tuple(sorted(p["perm"])), []).append(p)
+    events, meta = [], []
+    engine = 0
+
+    def apply(q, c):
+        m = c["m"]
+        if m == "columns":
+            return q.columns(*[Column(n, "INT") for n in c["names"]])
+        if m in ("unique", "primary_key"):
+            return getattr(q, m)(*c["names"])
+        if m == "period_for":
+            return q.period_for(c["name"], c["a"], c["b"])
+        return getattr(q, m)()
+    for d, Q in qc.items():
+        ld = core.lex_dialect(d)
+        for key, ps in groups.items():
+            if not key:
+                continue
+            orders = []
+            for p in ps:
+                q, excs = Q.create_table("ct"), []
+                for c in p["calls"]:
+                    try:
+                        q = apply(q, c)
+                        str(q)  # every intermediate builder is rendered (a decision remembered from an earlier render must not survive)
+                        excs.append("")
+                    except Exception as ex:  # noqa
+                        excs.append(type(ex).__name__)
+                rexc, text = "", ""
+                try:
+                    text = str(q)
+                except Exception as ex:  # noqa
+                    rexc = type(ex).__name__
+                toks = lexer.lex(text, ld)
+                seq = [t["v"] for t in toks if (t["t"] == "word" and t["v"] in DDL_WORDS) or t["t"] == "id"]
+                orders.append({"perm": p["perm"], "calls": p["calls"], "excs": excs, "rexc": rexc, "text": hashlib.sha1(text.encode()).hexdigest()[:12] if text else "",
+                               "seq": seq, "balanced": lexer.balanced(toks) and not any(t["t"] == "err" for t in toks), "_sql": text})
+                ms = {c["m"] for c in p["calls"]}
+                if d == "sqlite" and text and not rexc and not any(excs) and not (ms & {"unlogged", "with_system_versioning", "period_for"}):
+                    engine += 1
+                    err = sqlite_prepare(text)
+                    if err and ("syntax error" in err or "near" in err):
+                        rep.discrepancy([["sqlite-prepare", "create"] + sorted(ms)], {"sql": text, "engine": err, "calls": p["calls"]}, what="SQLite's parser rejects the statement")
+            events.append({"tid": len(events), "d": d, "table": "ct", "orders": [{k: v for k, v in o.items() if k != "_sql"} for o in orders]})
+            meta.append((d, key, orders))
+    results = tlc.judge_shards("J_Ddl", "INIT Init\nNEXT Next\n", events, shard=max(100, len(events) // 16 + 1), heap="2g")
+    rep.add_tlc(results)
+    if sum(max(x.distinct - 1, 0) for x in results) != len(events):
+        raise core.MachineryError("J_Ddl did not consume every event")
+    for res in results:
+        for v in res.json_tagged("V"):
+            d, key, orders = meta[v["tid"]]
+            byperm = {tuple(o["perm"]): o for o in orders}
+            for kind, perm in sorted((f[0], tuple(f[1])) for f in v["form"]):
+                o = byperm[perm]
+                rep.discrepancy([[kind, "create", d, m] for m in sorted({c["m"] for c in o["calls"]})],
+                                {"family": "create", "dialect": d, "calls": o["calls"], "sql": o["_sql"], "sequence_found": o["seq"], "exceptions": o["excs"] + [o["rexc"]]},
+                                what=f"CREATE TABLE statement form: {kind}")
+            for _, p1, p2 in sorted(v["comm"])[:1]:
+                o1, o2 = byperm[tuple(p1)], byperm[tuple(p2)]
+                diff = sorted({c["m"] for c in o1["calls"]})
+                rep.discrepancy([["order-dependent", "create", d] + diff],
+                                {"family": "create", "dialect": d, "order_1": o1["calls"], "sql_1": o1["_sql"], "order_2": o2["calls"], "sql_2": o2["_sql"]},
+                                what="the same CREATE TABLE calls in another order render different SQL")
+    return sum(len(e["orders"]) for e in events), {("create", m[1]) for m in meta}, engine
 
 
 def _clause_alts(meths):
